@@ -1,0 +1,11 @@
+//go:build verif
+
+// Contracts for the deductive verifier in /verif (gowp).  This file contains no
+// executable code: only "//@" specification comments.  Compiled only under tag "verif".
+package token
+
+//@ func IsKeyword
+//@   props C04
+//@   safety C04
+//@   pure
+//@   nothrow
